@@ -44,6 +44,7 @@ class PathOracle:
         self.atoms = []          # (lhs, rhs, op, polarity) for nonlinear comparison atoms of the path condition
         self.queries = 0
         self.undecided = []
+        self.boundaries = []     # equalities a == b on which a strict test of the reference and a non-strict atom of the path disagree
         nonlinear = []
         for c in pc:
             if c is True:
@@ -212,6 +213,9 @@ class PathOracle:
                 # the atom states  x - y < 0 (strict) or <= 0 (non-strict), and it is true
                 if self.zero(d1 - (x - y)) and strict:
                     return True            # a - b < 0 holds
+                if self.zero(d1 - (x - y)) and not strict:
+                    # the path only knows a <= b where the reference tests a < b: they part ways exactly on a == b
+                    self.boundaries.append(a == b)
                 if self.zero(d1 + (x - y)):
                     # atom: (b - a) < 0  or  (b - a) <= 0  ->  a > b or a >= b  ->  not (a < b)
                     return False
@@ -374,7 +378,7 @@ def check_p2_step(W, prop):
             else:
                 n_solver += 1
                 eqs = [feq(aq[j], rq[j]) for j in range(5)] + [feq(am[j], rm[j]) for j in range(5)] + [to_real(an[j]) == rn[j] for j in range(5)]
-                hard_conf.append(z3.Implies(conj(o.pc[len(pre):]), to_bool(b_and(*eqs))))
+                hard_conf.append((z3.Implies(conj(o.pc[len(pre):]), to_bool(b_and(*eqs))), list(orc.boundaries)))
             # invariants on this path
             pcs_lin = [to_bool(c) for c in o.pc[len(pre):] if c is not True and W.m.is_linear(to_bool(c))]
             pos = [to_real(an[0]) == 1, to_real(an[4]) == n[4] + 1] + [to_real(an[j + 1]) >= to_real(an[j]) + 1 for j in range(4)]
@@ -402,17 +406,32 @@ def check_p2_step(W, prop):
         budget_end = _time.time() + (240 if W.tier == "quick" else 1800)
         saved_timeout = W.query_timeout_ms
         W.query_timeout_ms = 15000
+        W.retries = 0            # a budgeted search for a counterexample: breadth over the paths matters more than persistence on one
         found = 0
         tried = 0
-        for g, goal in enumerate(hard_conf):
+        # paths on which a strict test of the reference meets a non-strict atom of the implementation come first, restricted to the
+        # boundary a == b where the two part ways (the general query rarely finds that measure-zero set by itself)
+        order = sorted(range(len(hard_conf)), key=lambda g: 0 if hard_conf[g][1] else 1)
+        for g in order:
+            goal, bnds = hard_conf[g]
             if _time.time() > budget_end or found >= 2:
                 break
             tried += 1
+            for bnd in bnds[:2]:
+                r = W.prove("Quantile.add-step conforms to P-square [solver, unclosed path %d of %d, boundary of a strict test]" % (g + 1, len(hard_conf)),
+                            pre + axioms + [bnd], goal, role="%s:Quantile.p2-conformance" % prop, note=note_c, replay=rp_desc, grid_first_ms=6000)
+                if r["verdict"] == "violated":
+                    found += 1
+                    break
+                W.results[:] = [x_ for x_ in W.results if x_ is not r]       # a boundary that yields nothing is not an obligation of its own; the path is examined below
+            if found >= 2:
+                break
             r = W.prove("Quantile.add-step conforms to P-square [solver, unclosed path %d of %d]" % (g + 1, len(hard_conf)),
-                        pre + axioms, goal, role="%s:Quantile.p2-conformance" % prop, note=note_c, replay=rp_desc)
+                        pre + axioms, goal, role="%s:Quantile.p2-conformance" % prop, note=note_c, replay=rp_desc, grid_first_ms=6000)
             if r["verdict"] == "violated":
                 found += 1
         W.query_timeout_ms = saved_timeout
+        W.retries = 2
         if len(hard_conf) > tried:
             W.results.append({"obligation": "M:Quantile.add-step conforms to P-square [%d further unclosed paths]" % (len(hard_conf) - tried),
                               "engine": "mirsym", "verdict": "inconclusive", "role": "%s:Quantile.p2-conformance" % prop, "solver_s": 0.0,
